@@ -1354,6 +1354,8 @@ def translate(ll_path, roots_rx, boundary_rx, out_prefix, names=None, no_names=F
     for al, q in (types or {}).items():
         if em.namer is None: raise Unsupported('type aliases need debug info')
         hits = [ln for ln, did in em.namer.map.items() if not ln.endswith('.base') and em.di.qualname(em.di.node(did)) == q]
+        if len(hits) == 0:
+            continue          # the class does not occur in this unit: no alias (contracts that need it are guarded by CV_HAS_<function>)
         if len(hits) != 1:
             raise Unsupported('type %s: %r matches %d llvm struct types %s' % (al, q, len(hits), hits[:4]))
         em.ctype(T('named', name=hits[0]))
